@@ -54,6 +54,8 @@ def run(ctx: Context) -> None:
     from . import c04 as _c04
     from .common import share_obligations as _share
     _share(ctx, _c04, {'R04.1', 'R04.2', 'R04.3', 'R04.4'}, 'R05.5')
+    from .common import adopt_foundations as _adopt
+    _adopt(ctx, 'R05.7', ['geometry', 'order'], floor=60)
     ctx.assume("xarray Dataset.isel with a Dataset of integer arrays on a shared new dimension performs pointwise positional selection; pandas/xarray merges align on the point dimension")
 
     # ------------------------------------------------------------------ select_indexes
